@@ -3,6 +3,7 @@
   PROPERTY THEOREMS ONLY.
 -/
 import SymfcModel.Lemmas.Api
+import SymfcModel.Lemmas.ApiMulti
 import SymfcModel.Gen.SolverState
 import SymfcModel.Gen.Purity
 import SymfcModel.Gen.ApiAccess
@@ -154,5 +155,122 @@ theorem reused_solver_object_equals_fresh {B D C R : Type} (fit : B → D → C)
     ((history ++ [last]).foldl (fun (_ : Option C) d => some (fit b d)) c₀).map (expand b) =
       (([last] : List D).foldl (fun (_ : Option C) d => some (fit b d)) none).map (expand b) := by
   simp [List.foldl_append]
+
+/-! ### several `Symfc` objects sharing basis-set dictionaries (`Model/ApiMulti.lean`)
+
+The `basis_set` setter keeps the dict it is given by reference and `compute_basis_set` writes into that dict, so
+after `B.basis_set = A.basis_set` the two objects hold ONE dict. `MState` is a list of objects plus a heap of
+dicts; `view s i` is the single-object `ApiState` that object `i` sees; `mstep` is the multi-object step
+(`Lemmas/ApiMulti.lean`: `mstep_simulates_step`, `mstep_frame` relate it to the single-object `step`). -/
+
+open ApiMulti in
+/-- C12, several objects (M1): the outcome of `solve` on object `i` of ANY multi-object state — the error reported and
+    everything the object holds afterwards — is the single-object outcome on what `i` holds (`view s i`); the other
+    objects, their histories and who shares which dict do not enter. Hence every single-object statement above
+    transfers; the second part spells this out for `solve_depends_only_on_inputs`: two objects (of the same or of
+    different families) with the same inputs accept/reject alike and store identical values under every written key. -/
+theorem solve_on_any_object_depends_only_on_what_it_holds
+    (s : MState) (i : Nat) (v : ApiState) (hv : view s i = some v)
+    (m : Option Nat) (o : Option (List Nat)) (c : Bool) :
+    ((mstep genApiCfg s (.solve i m o c)).2 = liftErr (solveStep genApiCfg v m o c).2 ∧
+     view (mstep genApiCfg s (.solve i m o c)).1 i = some (solveStep genApiCfg v m o c).1) ∧
+    (∀ (t : MState) (j : Nat) (w : ApiState), view t j = some w → sameInputs v w →
+      ∀ os, checkOrders genApiCfg m o = .ok os →
+        (mstep genApiCfg s (.solve i m o c)).2 = (mstep genApiCfg t (.solve j m o c)).2 ∧
+        ∃ v' w', view (mstep genApiCfg s (.solve i m o c)).1 i = some v' ∧
+                 view (mstep genApiCfg t (.solve j m o c)).1 j = some w' ∧
+                 (v' ≠ v → ∀ k ∈ os, dictGet v'.fc k = dictGet w'.fc k)) := by
+  have h1 := solve_on_object_depends_only_on_its_view genApiCfg s i v hv m o c
+  refine ⟨h1, ?_⟩
+  intro t j w hw hin os ho
+  have h2 := solve_on_object_depends_only_on_its_view genApiCfg t j w hw m o c
+  have h3 := solve_depends_only_on_inputs v w hin m o c os ho
+  refine ⟨?_, _, _, h1.2, h2.2, h3.2⟩
+  rw [h1.1, h2.1, h3.1]
+
+open ApiMulti in
+/-- C12, several objects (M2): objects of ONE configuration (same supercell/operations token, same cutoff table) may hand
+    their basis-set dicts to each other in any way. After any finite history from nothing in which objects are only
+    created with the common configuration `(n, c, cut)` — any interleaving of dataset setters, hand-overs,
+    `compute_basis_set`, `solve`, `run` on any objects —
+    (a) every basis set stored under key `k` in what any object holds is the common one, `{k, c, cut k}`;
+    (b) a `solve` that raises nothing on ANY object `i` stores under every requested order `k` exactly
+        `{k, request, [common basis sets of the request], dataset of i, compact}`, and this is what a fresh object of
+        that configuration with the same dataset returns for the same request after computing the requested basis
+        sets itself (`freshSolve`), which also raises nothing. -/
+theorem shared_basis_sets_are_harmless_between_consistent_objects
+    (n c : Nat) (cut : List (Nat × Option Nat)) (ops : List MOp) (hops : ∀ op ∈ ops, Respects n c cut op)
+    (i : Nat) (v : ApiState) (hv : view (runM genApiCfg .empty ops) i = some v) :
+    (∀ k b, dictGet v.basis k = some b → b = { order := k, cfgId := c, cutoff := (dictGet cut k).getD none }) ∧
+    ∀ (m : Option Nat) (o : Option (List Nat)) (compact : Bool) (os : List Nat),
+      checkOrders genApiCfg m o = .ok os →
+      (mstep genApiCfg (runM genApiCfg .empty ops) (.solve i m o compact)).2 = none →
+      ∃ v' d f,
+        view (mstep genApiCfg (runM genApiCfg .empty ops) (.solve i m o compact)).1 i = some v' ∧
+        v.disp = some d ∧ v.forces = some f ∧
+        (freshSolve genApiCfg n c cut v.disp v.forces m o compact).2 = none ∧
+        ∀ k ∈ os,
+          dictGet v'.fc k =
+            some { order := k, orders := os,
+                   bases := os.map (fun k => { order := k, cfgId := c, cutoff := (dictGet cut k).getD none }),
+                   disp := d.id, forces := f.id, compact := compact } ∧
+          dictGet v'.fc k = dictGet (freshSolve genApiCfg n c cut v.disp v.forces m o compact).1.fc k := by
+  have hbf : ∀ k b, basisFor genApiCfg c cut k = some b →
+      b = { order := k, cfgId := c, cutoff := (dictGet cut k).getD none } := by
+    intro k b h
+    unfold basisFor at h
+    cases hck : dictGet genApiCfg.cutoffKeys k with
+    | none => rw [hck] at h; cases h
+    | some ck =>
+      have hmem := dictGet_mem _ k ck hck
+      have hall : genApiCfg.cutoffKeys.all (fun p => p.1 == p.2) = true := by decide
+      have hkk : k = ck := by simpa using List.all_eq_true.mp hall _ hmem
+      rw [hck] at h
+      simp only [Option.map_some, Option.some.injEq] at h
+      rw [← h, ← hkk]
+  refine ⟨?_, ?_⟩
+  · intro k b h
+    exact hbf k b ((reachable_dicts_hold_the_common_basis genApiCfg n c cut ops hops).2 i v hv k b h)
+  · intro m o compact os ho hok
+    obtain ⟨v', bases, d, f, h1, h2, h3, h4, h5, h6⟩ :=
+      sharing_is_harmless_for_consistent_objects genApiCfg (by decide) n c cut ops hops i v hv m o compact os ho hok
+    have hbases : bases = os.map (fun k => { order := k, cfgId := c, cutoff := (dictGet cut k).getD none }) := by
+      clear h6 ho
+      induction os generalizing bases with
+      | nil => simpa [allSome] using h4.symm
+      | cons x xs ih =>
+        simp only [List.map_cons] at h4 ⊢
+        cases hx : basisFor genApiCfg c cut x with
+        | none => rw [hx] at h4; simp [allSome] at h4
+        | some bx =>
+          rw [hx] at h4
+          cases hr : allSome (xs.map (basisFor genApiCfg c cut)) with
+          | none => simp [allSome, hr] at h4
+          | some r =>
+            simp only [allSome, hr, Option.map_some, Option.some.injEq] at h4
+            rw [← h4, ih r hr, hbf x bx hx]
+    exact ⟨v', d, f, h1, h2, h3, h5, fun k hk => by rw [← hbases]; exact h6 k hk⟩
+
+open ApiMulti in
+/-- C12, several objects (M3) — what sharing MEANS when the configurations differ (an observation, not a defect of a
+    consistent use): A (cutoff token 5) computes order 2; B (same supercell, cutoff token 7) is handed A's dict and
+    recomputes order 2. A and B hold the same dict, so A's next solve of order 2 — which raises nothing — was computed
+    from the basis set with B's cutoff, while a fresh object with A's configuration and dataset, and A itself before
+    B recomputed, use A's cutoff. With a copying setter (`ApiMulti.handover_of_a_copy_is_isolated`) A would be
+    unaffected. -/
+theorem sharing_with_another_cutoff_changes_the_giver :
+    refOf (runM genApiCfg .empty m3History) 0 = refOf (runM genApiCfg .empty m3History) 1 ∧
+    (mstep genApiCfg (runM genApiCfg .empty m3History) (.solve 0 none (some [2]) true)).2 = none ∧
+    fc2After (runM genApiCfg .empty m3History) 0 =
+      some (some { order := 2, orders := [2], bases := [{ order := 2, cfgId := 1, cutoff := some 7 }],
+                   disp := 10, forces := 11, compact := true }) ∧
+    dictGet (freshSolve genApiCfg 2 1 [(2, some 5)] (some ⟨10, [5, 2, 3]⟩) (some ⟨11, [5, 2, 3]⟩)
+              none (some [2]) true).1.fc 2 =
+      some { order := 2, orders := [2], bases := [{ order := 2, cfgId := 1, cutoff := some 5 }],
+             disp := 10, forces := 11, compact := true } ∧
+    fc2After (runM genApiCfg .empty m3Before) 0 =
+      some (some { order := 2, orders := [2], bases := [{ order := 2, cfgId := 1, cutoff := some 5 }],
+                   disp := 10, forces := 11, compact := true }) :=
+  ApiMulti.sharing_with_another_cutoff_changes_the_giver
 
 end Symfc.C12
